@@ -148,6 +148,18 @@ class Engine(EngineBase):
             # one value per path component: a '_'-joined layout would be ambiguous for \w+ fields
             path = "/".join(f"{k}/{{{k}}}" for k in keys)
             target = rng.choice(["dir", "dir", "dir", ".zip", ".tar", ".tar.gz"])
+        if rng.random() < 0.03 and not schema_focus:
+            # a layout that spells only one of the keys (the others are constant over the jobs, so the paths are
+            # unique), imported with the schema string of exactly that layout: the state point files know more
+            # than the schema derives - the import must refuse or reproduce the project
+            uni = "schema_words"
+            w = rng.choice(["alpha", "beta_2", "A1"])
+            flag = rng.choice([True, False])
+            jobs = [{"sp": {"w": w, "a": a, "flag": flag}, "doc": {"i": i}, "files": {"f1": f"DATA:{i}:f1"}}
+                    for i, a in enumerate(rng.sample([1, 10, 11, 100], rng.randrange(1, 4)))]
+            path = "a/{a}"
+            schema = "string"
+            target = rng.choice(["dir", "dir", ".zip", ".tar", ".tar.gz"])
         move = target == "dir" and rng.random() < 0.15
         return {"knobs": knobs, "universe": uni, "jobs": jobs, "path": path, "target": target, "move": move,
                 "schema": schema, "conflict_job": rng.randrange(0, 12) if rng.random() < 0.35 else None,
